@@ -60,6 +60,20 @@ def _int_key_predicates(fn: ast.AST) -> list:
                         and unparse(b.value.func) == "int" and len(b.value.args) == 1 and unparse(b.value.args[0]) == b.targets[0].id:
                     var = b.targets[0].id
                     out.append((re.sub(r"\b{}\b".format(re.escape(var)), "K", unparse(n.test)), n.test))
+    if not out:
+        # inline try form:  try: V = int(K) / except ValueError: V = <default>;  if C(V): K = V
+        # int() accepts a sign, surrounding blanks and digit-group underscores ("+1", "1_0") -- not what isdecimal() accepts
+        for t in ast.walk(fn):
+            if isinstance(t, ast.Try) and len(t.body) == 1 and isinstance(t.body[0], ast.Assign) and len(t.body[0].targets) == 1 \
+                    and isinstance(t.body[0].targets[0], ast.Name) and isinstance(t.body[0].value, ast.Call) \
+                    and unparse(t.body[0].value.func) == "int" and len(t.body[0].value.args) == 1 and isinstance(t.body[0].value.args[0], ast.Name) \
+                    and not any(isinstance(x, (ast.Return, ast.Raise, ast.Continue, ast.Break)) for h in t.handlers for st in h.body for x in ast.walk(st)):
+                v, k = t.body[0].targets[0].id, t.body[0].value.args[0].id
+                for n in ast.walk(fn):
+                    if isinstance(n, ast.If) and any(isinstance(b, ast.Assign) and len(b.targets) == 1 and unparse(b.targets[0]) == k
+                                                     and unparse(b.value) == v for b in n.body):
+                        c = re.sub(r"\b{}\b".format(re.escape(v)), "int(K)", unparse(n.test))
+                        out.append(("int(K) accepted and " + re.sub(r"\b{}\b".format(re.escape(k)), "K", c), n.test))
     if out or _CTX is None:
         return out
     # the decision delegated to a helper:  x = H(K);  if x is not None: K = x   -- the predicate is H's own decision
